@@ -23,9 +23,24 @@ TYPES = {
 }
 
 
+import sys
+from crosshair.tracers import SYS_MONITORING_TOOL_ID as _TOOL
+
+
 def untraced(fn, *a, **kw):
+    """run fn concretely.  Under CrossHair on Python 3.12 NoTracing only mutes the tracer: the per-instruction monitoring event still
+    fires for every instruction (measured: 8x slower than plain Python).  The events are switched off for the duration of the call."""
     if is_tracing():
         with NoTracing():
+            mon = getattr(sys, 'monitoring', None)
+            if mon is not None and mon.get_tool(_TOOL) is not None:
+                ev = mon.get_events(_TOOL)
+                mon.set_events(_TOOL, 0)
+                try:
+                    return fn(*a, **kw)
+                finally:
+                    mon.set_events(_TOOL, ev)
+                    mon.restart_events()
             return fn(*a, **kw)
     return fn(*a, **kw)
 
@@ -56,9 +71,10 @@ def _skeleton(kind):
     p2.add_child_interface(name='v2', labels=Labels(vlan='200'))
     t.add_facility(name='fac1', site='RENC', capacities=Capacities(bw=10))
     f = t.facilities['fac1'].interface_list[0]
-    t.add_network_service(name='br1', nstype=ServiceType.L2Bridge, interfaces=[f])
+    t.add_network_service(name='br1', nstype=ServiceType.L2Bridge, interfaces=[f], site='RENC')     # a site the user supplied
     n3 = t.add_node(name='n3', site='RENC', ntype=NodeType.VM)
     n3.add_storage(name='vol1', labels=Labels(local_name='v'))
+    _stale_handles(t)
     if kind == 'S3':
         return t
     # S4: + an FPGA with a connected port, a connected sub-interface, a link with three ends, two peered services
@@ -68,10 +84,23 @@ def _skeleton(kind):
     v1 = [k for k in p2.interface_list if k.name == 'v1'][0]
     t.network_services['br1'].connect_interface(v1)
     t.add_link(name='lan3', ltype=LinkType.L2Path, interfaces=[fp[1], n2.components['nic3'].interface_list[1], b2_free(t)])
+    t.add_switch(name='sw1', site='RENC', nports=2)
+    n2.components['nic3'].interface_list[1].labels = None      # a dedicated port that lost its labels (no local name to inherit)
     f1 = t.add_network_service(name='fab1', nstype=ServiceType.L3VPN)
     f2 = t.add_network_service(name='fab2', nstype=ServiceType.L3VPN)
     f1.peer(f2, labels=Labels(local_name='peer'))
     return t
+
+
+def _stale_handles(t):
+    """handles of elements that are no longer in the model (a user can hold on to them): an interface whose component was removed,
+    a service that was removed"""
+    n3 = t.nodes['n3']
+    tmp = n3.add_component(name='tmpnic', ctype=ComponentType.SmartNIC, model='ConnectX-6')
+    t.stale_iface = tmp.interface_list[0]
+    n3.remove_component('tmpnic')
+    t.stale_svc = t.add_network_service(name='tmpsvc', nstype=ServiceType.L2Bridge)
+    t.remove_network_service('tmpsvc')
 
 
 def b2_free(t):
